@@ -5,7 +5,7 @@ patch="$1"; shift
 cd /repo || exit 2
 if [ -n "$(git status --porcelain)" ]; then echo "repo not clean"; exit 2; fi
 if ! git apply --check "$patch" 2>/dev/null; then
-  if ! git apply --3way "$patch" 2>/dev/null; then echo "PATCH DOES NOT APPLY: $patch"; git checkout -- . ; exit 3; fi
+  if ! git apply --3way "$patch" 2>/dev/null; then echo "PATCH DOES NOT APPLY: $patch"; git reset -q --hard HEAD ; exit 3; fi
 else
   git apply "$patch"
 fi
@@ -19,5 +19,5 @@ for id in "$@"; do
   echo "== $id $tier exit=$code"
   echo "$out" | grep -E "VIOLATION|key=|MACHINERY|KNOWN" | cut -c1-400 | head -12
 done
-git checkout -- . ; git reset -q
+git reset -q --hard HEAD
 git status --porcelain | head -3
